@@ -568,6 +568,257 @@ def unwrap_typed(fn, argname):
     return info
 
 
+# ------------------------------------------------------------------------------------------------------------
+# Round 6: the private helpers reachable from the four anchored functions (_int64_array, _python_int), the scalar
+# promotions of sdss_specobjid, and a closed statement inventory of both packers: a top-level statement that is none
+# of the recognised kinds makes the source unrecognised (fail closed) instead of being skipped.
+
+EXC = {'ValueError': 'EValueError', 'OverflowError': 'EOverflowError', 'TypeError': 'ETypeError'}
+
+
+def body_of(fn):
+    return [st for st in fn.body if not (isinstance(st, ast.Expr) and isinstance(st.value, ast.Constant))]
+
+
+def np_array1(node, name):
+    """np.array([name]) -> None (type inferred by numpy);  np.array([name], dtype=np.<t>) -> ity text."""
+    if not (isinstance(node, ast.Call) and isinstance(node.func, ast.Attribute) and node.func.attr == 'array'
+            and isinstance(node.func.value, ast.Name) and node.func.value.id == 'np' and len(node.args) == 1
+            and isinstance(node.args[0], ast.List) and len(node.args[0].elts) == 1
+            and isinstance(node.args[0].elts[0], ast.Name) and node.args[0].elts[0].id == name):
+        raise P.Unrecognised('not np.array([%s], ...)' % name)
+    if not node.keywords:
+        return None
+    if len(node.keywords) == 1 and node.keywords[0].arg == 'dtype' and isinstance(node.keywords[0].value, ast.Attribute) \
+            and isinstance(node.keywords[0].value.value, ast.Name) and node.keywords[0].value.value.id == 'np' \
+            and node.keywords[0].value.attr in ITY:
+        return ITY[node.keywords[0].value.attr]
+    raise P.Unrecognised('keywords of np.array([%s], ...)' % name)
+
+
+def promoter_lit(dtype, handlers):
+    return '{| pr_dtype := %s; pr_handlers := [%s] |}' % (
+        'None' if dtype is None else 'Some %s' % dtype, '; '.join('(%s, %s)' % h for h in handlers))
+
+
+def int64_array_helper(tree):
+    """_int64_array(value): `return np.array([value], dtype=np.T)`, possibly inside try/except E: raise E2(...)."""
+    fn = P.find_function(tree, '_int64_array')
+    if [a.arg for a in fn.args.args] != ['value'] or fn.args.defaults or fn.args.vararg or fn.args.kwarg or fn.args.kwonlyargs:
+        raise P.Unrecognised('_int64_array signature')
+    body = body_of(fn)
+    if len(body) != 1:
+        raise P.Unrecognised('_int64_array has %d statements' % len(body))
+    st = body[0]
+    handlers = []
+    if isinstance(st, ast.Try):
+        if st.orelse or st.finalbody or len(st.body) != 1:
+            raise P.Unrecognised('_int64_array try statement')
+        for h in st.handlers:
+            if not (isinstance(h.type, ast.Name) and h.type.id in EXC and h.name is None and len(h.body) == 1
+                    and isinstance(h.body[0], ast.Raise) and isinstance(h.body[0].exc, ast.Call)
+                    and isinstance(h.body[0].exc.func, ast.Name) and h.body[0].exc.func.id in EXC and h.body[0].cause is None):
+                raise P.Unrecognised('_int64_array exception handler')
+            handlers.append((EXC[h.type.id], EXC[h.body[0].exc.func.id]))
+        st = st.body[0]
+    if not isinstance(st, ast.Return) or st.value is None:
+        raise P.Unrecognised('_int64_array does not return the array directly')
+    return np_array1(st.value, 'value'), handlers
+
+
+def python_int_helper(tree):
+    """_python_int(value): `if <class test>: return int(value)` ... `return value`.  None when the helper is absent."""
+    try:
+        fn = P.find_function(tree, '_python_int')
+    except P.Unrecognised:
+        return None
+    if [a.arg for a in fn.args.args] != ['value'] or fn.args.defaults or fn.args.vararg or fn.args.kwarg or fn.args.kwonlyargs:
+        raise P.Unrecognised('_python_int signature')
+    body = body_of(fn)
+    if not body or not (isinstance(body[-1], ast.Return) and isinstance(body[-1].value, ast.Name) and body[-1].value.id == 'value'):
+        raise P.Unrecognised('_python_int does not end with `return value`')
+
+    def np_attr(n, names):
+        return isinstance(n, ast.Attribute) and isinstance(n.value, ast.Name) and n.value.id == 'np' and n.attr in names
+
+    def is_inst(t, names):
+        """isinstance(value, np.X) / isinstance(value, (np.X, np.Y)) -> list of attrs"""
+        if not (isinstance(t, ast.Call) and isinstance(t.func, ast.Name) and t.func.id == 'isinstance' and len(t.args) == 2
+                and not t.keywords and isinstance(t.args[0], ast.Name) and t.args[0].id == 'value'):
+            return None
+        c = t.args[1]
+        elts = c.elts if isinstance(c, ast.Tuple) else [c]
+        if all(np_attr(e, names) for e in elts):
+            return [e.attr for e in elts]
+        return None
+    classes = []
+    for st in body[:-1]:
+        if not (isinstance(st, ast.If) and not st.orelse and len(st.body) == 1 and isinstance(st.body[0], ast.Return)
+                and isinstance(st.body[0].value, ast.Call) and isinstance(st.body[0].value.func, ast.Name)
+                and st.body[0].value.func.id == 'int' and len(st.body[0].value.args) == 1 and not st.body[0].value.keywords
+                and isinstance(st.body[0].value.args[0], ast.Name) and st.body[0].value.args[0].id == 'value'):
+            raise P.Unrecognised('_python_int: statement that is not `if ...: return int(value)`')
+        t = st.test
+        got = is_inst(t, ('integer', 'bool_'))
+        if got is not None:
+            classes += [{'integer': 'NpIntegerScalar', 'bool_': 'NpBoolScalar'}[g] for g in got]
+            continue
+        # isinstance(value, np.ndarray) and value.ndim == 0 and value.dtype.kind in 'biu'
+        if isinstance(t, ast.BoolOp) and isinstance(t.op, ast.And) and len(t.values) == 3 and is_inst(t.values[0], ('ndarray',)) == ['ndarray']:
+            b, c = t.values[1], t.values[2]
+            ok_b = (isinstance(b, ast.Compare) and len(b.ops) == 1 and isinstance(b.ops[0], ast.Eq) and isinstance(b.left, ast.Attribute)
+                    and b.left.attr == 'ndim' and isinstance(b.left.value, ast.Name) and b.left.value.id == 'value'
+                    and isinstance(b.comparators[0], ast.Constant) and b.comparators[0].value == 0
+                    and not isinstance(b.comparators[0].value, bool))
+            ok_c = (isinstance(c, ast.Compare) and len(c.ops) == 1 and isinstance(c.ops[0], ast.In) and isinstance(c.left, ast.Attribute)
+                    and c.left.attr == 'kind' and isinstance(c.left.value, ast.Attribute) and c.left.value.attr == 'dtype'
+                    and isinstance(c.left.value.value, ast.Name) and c.left.value.value.id == 'value'
+                    and isinstance(c.comparators[0], ast.Constant) and isinstance(c.comparators[0].value, str)
+                    and sorted(c.comparators[0].value) == ['b', 'i', 'u'])
+            if ok_b and ok_c:
+                classes.append('ZeroDimArray')
+                continue
+        raise P.Unrecognised('_python_int: class test')
+    return classes
+
+
+def is_normalise_stmt(st):
+    """X = _python_int(X) -> 'X'"""
+    if isinstance(st, ast.Assign) and len(st.targets) == 1 and isinstance(st.targets[0], ast.Name) \
+            and isinstance(st.value, ast.Call) and isinstance(st.value.func, ast.Name) and st.value.func.id == '_python_int' \
+            and len(st.value.args) == 1 and not st.value.keywords and isinstance(st.value.args[0], ast.Name) \
+            and st.value.args[0].id == st.targets[0].id:
+        return st.targets[0].id
+    return None
+
+
+def is_none_test(t, name=None, positive=True):
+    return (isinstance(t, ast.Compare) and len(t.ops) == 1 and isinstance(t.ops[0], ast.Is if positive else ast.IsNot)
+            and isinstance(t.left, ast.Name) and (name is None or t.left.id == name)
+            and isinstance(t.comparators[0], ast.Constant) and t.comparators[0].value is None)
+
+
+def is_shape_check(st):
+    t = st.test
+    return (isinstance(st, ast.If) and isinstance(t, ast.Compare) and len(t.ops) == 1 and isinstance(t.ops[0], ast.NotEq)
+            and isinstance(t.left, ast.Attribute) and t.left.attr == 'shape')
+
+
+def statement_inventory(fn, result, other_if):
+    """Every top-level statement must be: a normalisation X = _python_int(X), an `if` of a recognised kind (range check,
+    shape check, or accepted by other_if), the final `result = <packing expression>` or `return result`.
+    Returns (normalised names, index of the first `if isinstance(...)`)."""
+    body = body_of(fn)
+    normalised, first_promotion, last_norm = [], None, -1
+    for k, st in enumerate(body):
+        nm = is_normalise_stmt(st)
+        if nm is not None:
+            normalised.append(nm)
+            last_norm = k
+        elif isinstance(st, ast.If):
+            if P.range_check(st) is not None or is_shape_check(st):
+                continue
+            kind = other_if(st, k)
+            if kind == 'promotion' and first_promotion is None:
+                first_promotion = k
+            elif kind is None:
+                raise P.Unrecognised('%s: `if` statement of an unknown kind at line %d' % (fn.name, st.lineno))
+        elif isinstance(st, ast.Assign) and len(st.targets) == 1 and isinstance(st.targets[0], ast.Name) \
+                and st.targets[0].id == result and k == len(body) - 2:
+            continue
+        elif isinstance(st, ast.Return) and isinstance(st.value, ast.Name) and st.value.id == result and k == len(body) - 1:
+            continue
+        else:
+            raise P.Unrecognised('%s: statement of an unknown kind at line %d' % (fn.name, st.lineno))
+    if first_promotion is not None and last_norm > first_promotion:
+        raise P.Unrecognised('%s: a scalar is normalised after the isinstance(..., int) tests' % fn.name)
+    if len(set(normalised)) != len(normalised):
+        raise P.Unrecognised('%s: argument normalised twice' % fn.name)
+    return normalised
+
+
+def objid_inventory(fn):
+    def other(st, k):
+        if is_none_test(st.test):
+            return 'none'
+        if is_isinstance_int(st.test):
+            return 'promotion'
+        return None
+    return statement_inventory(fn, 'objid', other)
+
+
+def spec_inventory(fn):
+    """Statement inventory of sdss_specobjid + its scalar promotions `X = np.array([X])` (type inferred by numpy)."""
+    promoted, dtypes = [], []
+
+    def simple_promotion(st, nm):
+        """if isinstance(nm, int): nm = np.array([nm])   (no else)"""
+        if not (is_isinstance_int(st.test, nm) and len(st.body) == 1 and isinstance(st.body[0], ast.Assign)
+                and len(st.body[0].targets) == 1 and isinstance(st.body[0].targets[0], ast.Name) and st.body[0].targets[0].id == nm):
+            raise P.Unrecognised('scalar promotion of %s' % nm)
+        dtypes.append(np_array1(st.body[0].value, nm))
+        promoted.append(nm)
+
+    def is_isinstance_str(t, nm):
+        return (isinstance(t, ast.Call) and isinstance(t.func, ast.Name) and t.func.id == 'isinstance' and len(t.args) == 2
+                and isinstance(t.args[0], ast.Name) and t.args[0].id == nm and isinstance(t.args[1], ast.Name) and t.args[1].id == 'str')
+
+    def other(st, k):
+        t = st.test
+        if k == 0 and isinstance(t, ast.BoolOp):
+            return 'exclusive'          # checked by spec_glue
+        if is_isinstance_int(t) and t.args[0].id in ('plate', 'fiber'):
+            if st.orelse:
+                raise P.Unrecognised('else branch on isinstance(%s, int)' % t.args[0].id)
+            simple_promotion(st, t.args[0].id)
+            return 'promotion'
+        if is_isinstance_int(t, 'mjd'):
+            # mjd = np.array([mjd]) - c   /  else: mjd = <array expression>   (constants read by mjd_offsets / mjd_array_texpr)
+            if not (len(st.body) == 1 and isinstance(st.body[0], ast.Assign) and isinstance(st.body[0].targets[0], ast.Name)
+                    and st.body[0].targets[0].id == 'mjd' and isinstance(st.body[0].value, ast.BinOp)
+                    and isinstance(st.body[0].value.op, (ast.Sub, ast.Add))):
+                raise P.Unrecognised('scalar branch of the mjd conversion')
+            dtypes.append(np_array1(st.body[0].value.left, 'mjd'))
+            promoted.append('mjd')
+            return 'promotion'
+        if is_isinstance_str(t, 'run2d'):
+            # if isinstance(run2d, str): try/except (read by run2d_string_branch)  elif isinstance(run2d, int): run2d = np.array([run2d])
+            if not (len(st.body) == 1 and isinstance(st.body[0], ast.Try) and len(st.orelse) == 1 and isinstance(st.orelse[0], ast.If)
+                    and not st.orelse[0].orelse):
+                raise P.Unrecognised('run2d dispatch')
+            tr = st.body[0]
+            if not (len(tr.body) == 1 and isinstance(tr.body[0], ast.Assign) and isinstance(tr.body[0].targets[0], ast.Name)
+                    and tr.body[0].targets[0].id == 'run2d' and len(tr.handlers) == 1 and not tr.orelse and not tr.finalbody):
+                raise P.Unrecognised('run2d decimal-string branch')
+            v = tr.body[0].value     # np.array([int(run2d)])
+            if not (isinstance(v, ast.Call) and isinstance(v.func, ast.Attribute) and v.func.attr == 'array' and len(v.args) == 1
+                    and not v.keywords and isinstance(v.args[0], ast.List) and len(v.args[0].elts) == 1
+                    and isinstance(v.args[0].elts[0], ast.Call) and getattr(v.args[0].elts[0].func, 'id', None) == 'int'
+                    and len(v.args[0].elts[0].args) == 1 and getattr(v.args[0].elts[0].args[0], 'id', None) == 'run2d'
+                    and not v.args[0].elts[0].keywords):
+                raise P.Unrecognised('run2d decimal-string conversion')
+            simple_promotion(st.orelse[0], 'run2d')
+            return 'promotion'
+        if is_none_test(t) and t.left.id in ('line', 'index'):
+            nm = t.left.id
+            # X = np.zeros(plate.shape, dtype=plate.dtype)  else: if isinstance(X, int): X = np.array([X])
+            z = st.body[0].value if len(st.body) == 1 and isinstance(st.body[0], ast.Assign) and \
+                getattr(st.body[0].targets[0], 'id', None) == nm else None
+            if not (isinstance(z, ast.Call) and isinstance(z.func, ast.Attribute) and z.func.attr == 'zeros' and len(z.args) == 1
+                    and isinstance(z.args[0], ast.Attribute) and z.args[0].attr == 'shape' and getattr(z.args[0].value, 'id', None) == 'plate'
+                    and len(z.keywords) == 1 and z.keywords[0].arg == 'dtype'):
+                raise P.Unrecognised('default of %s is not np.zeros(plate.shape, dtype=...)' % nm)
+            if not (len(st.orelse) == 1 and isinstance(st.orelse[0], ast.If) and not st.orelse[0].orelse):
+                raise P.Unrecognised('else branch of `if %s is None`' % nm)
+            simple_promotion(st.orelse[0], nm)
+            return 'none'
+        return None
+    normalised = statement_inventory(fn, 'specObjID', other)
+    if len(set(dtypes)) != 1:
+        raise P.Unrecognised('scalar promotions of sdss_specobjid use different array constructions')
+    return normalised, promoted, dtypes[0]
+
+
 def format_pieces(fmt):
     """'v{0:d}_{1:d}_{2:d}' -> [('lit','v'), ('arg',0), ...]"""
     import re as _re
@@ -679,6 +930,30 @@ def generate(repo):
         out.append('Definition specobjid_line_index_exclusive : bool := %s.' % ('true' if excl else 'false'))
         out.append('Definition specobjid_shape_checked : list nat := [%s].\n' % '; '.join('%d%%nat' % senv[k] for k in sshapes))
         info['objid_glue'] = {'signature_defaults': sig, 'none_values': none_vals, 'broadcast': bcast, 'shape_checked': shapes}
+
+        # ---- round 6: private helpers, scalar promotions of sdss_specobjid, closed statement inventories ----
+        out.append('(* ---- private helpers and scalar handling (round 6) ---- *)')
+        dt64, handlers = int64_array_helper(t1)
+        out.append('Definition int64_array_promoter : promoter := %s.' % promoter_lit(dt64, handlers))
+        classes = python_int_helper(t1)
+        out.append('Definition numpy_scalar_normaliser : option (list scalar_class) := %s.' % (
+            'None' if classes is None else 'Some [%s]' % '; '.join(classes)))
+        onorm = objid_inventory(f_obj)
+        snorm, spromoted, sdt = spec_inventory(f_spec)
+        if (onorm or snorm) and classes is None:
+            raise P.Unrecognised('_python_int is called but not defined in sdss.py')
+        for nm in onorm:
+            if nm not in ix:
+                raise P.Unrecognised('sdss_objid normalises %s' % nm)
+        for nm in snorm + spromoted:
+            if nm not in senv:
+                raise P.Unrecognised('sdss_specobjid normalises/promotes %s' % nm)
+        out.append('Definition objid_scalar_normalised : list nat := [%s].' % '; '.join('%d%%nat' % ix[k] for k in onorm))
+        out.append('Definition specobjid_scalar_normalised : list nat := [%s].' % '; '.join('%d%%nat' % senv[k] for k in snorm))
+        out.append('Definition specobjid_scalar_promoted : list nat := [%s].' % '; '.join('%d%%nat' % senv[k] for k in spromoted))
+        out.append('Definition specobjid_promoter : promoter := %s.\n' % promoter_lit(sdt, []))
+        info['scalar_handling'] = {'int64_array': [dt64, handlers], 'normaliser': classes, 'objid_normalised': onorm,
+                                   'specobjid_normalised': snorm, 'specobjid_promoted': spromoted, 'specobjid_promotion_dtype': sdt}
 
         tag = run2d_string_branch(f_spec)
 
